@@ -228,17 +228,22 @@ var c13Wraps = []struct {
 
 // c13Rerender: a placeholder item that is null at the first render and real at the second
 // (and the other way round); each render must equal that of a freshly built list.
-func c13Rerender(lc listConstruct, wrap int, nullFirst bool) string {
+// phKind: the null placeholder is Null() (0: one null token) or &Statement{} (1: no token at all).
+func c13Rerender(lc listConstruct, wrap int, nullFirst bool, phKind int) string {
+	blank := func() *jen.Statement {
+		if phKind == 1 {
+			return &jen.Statement{}
+		}
+		return jen.Null()
+	}
 	fresh := func(null bool) string {
-		var p *jen.Statement
-		if null {
-			p = jen.Null()
-		} else {
-			p = jen.Null().Id("late")
+		p := blank()
+		if !null {
+			p.Id("late")
 		}
 		return c13RenderStmt(lc.build([]jen.Code{c13Real(0), c13Wraps[wrap].mk(p), c13Real(1)})).Key()
 	}
-	p := jen.Null()
+	p := blank()
 	if !nullFirst {
 		p.Id("late")
 	}
@@ -250,7 +255,7 @@ func c13Rerender(lc listConstruct, wrap int, nullFirst bool) string {
 	if nullFirst {
 		p.Id("late")
 	} else {
-		*p = (*p)[:1] // back to only the Null token
+		*p = (*p)[:1-phKind] // back to only the Null token / to no token
 	}
 	r2 := c13RenderStmt(st).Key()
 	if want := fresh(!nullFirst); r2 != want {
@@ -325,8 +330,8 @@ func runC13(r *ev.Recorder) {
 	}
 	r.Rule = fmt.Sprintf("list constructs discovered by reflection over *Statement's method set at check time (%d: every variadic ...Code builder, its ...Func variant, Custom/CustomFunc with 6 option shapes incl. multi-line without opening token): %v. "+
 		"(a) injection: arities 0..%d (real items: identifiers; for arities 1..3 also with a line comment as last / first item and with a trailing comment on every item); at every slot (before, between, after the real items) up to 2 null items of %d kinds %v, with at most %d injected items per case (choice-point explorer); oracle: raw rendering identical to the one without injections (differential, fresh objects). "+
-		"also arities 8, 17, 40, 130 with one null item at every slot and with null items at all slots. (b) Empty(): at every position of every arity 1..%d; oracle: raw bytes equal those with an identifier in its place after deleting the identifier. "+
-		"(c) re-render: a placeholder item (bare, or inside List/Union/Add/Custom/Types) that is null at the first render and real at the second, and vice versa; each render must equal a freshly built list. "+
+		"also arities 8, 17, 40, 130 with one null item at every slot and with null items at all slots, and arities 260, 520, ..., 4160 with null items at all slots / first / middle / last (real and total item counts straddle every size up to 4160). (b) Empty(): at every position of every arity 1..%d; oracle: raw bytes equal those with an identifier in its place after deleting the identifier. "+
+		"(c) re-render: a placeholder item (Null() or a token-less &Statement{}; bare, or inside List/Union/Add/Custom/Types) that is null at the first render and real at the second, and vice versa; each render must equal a freshly built list. "+
 		"(d) one argument slice with nil entries spread into two constructs (every ordered pair of constructs x every nil placement): both render as if built privately, twice, and the caller's slice is unchanged. "+
 		"(e) program level: real programs of the corpus, translated into the DSL with null items injected at every list-construct site under 3 uniform policies, must re-parse to the same syntax tree. distinct_nontrivial = distinct (construct, item list) cases with at least one injected/Empty/placeholder item", len(c13Constructs), cn, maxArity, len(c13Nulls), nn, dev, maxArity)
 	r.Assume = []string{"an empty Types() used as a list item, and Dict{}, are not in the property's list of vanishing items and are not injected", "program level: every 12th corpus file in the quick tier, every file in the thorough tier"}
@@ -401,14 +406,41 @@ func runC13(r *ev.Recorder) {
 			}
 			check(all, fmt.Sprintf("%s with %d items and a null item at every slot", lc, arity))
 		}
+		// very large arities n = 130 * 2^k: n real items with n+1 cheap null items in between (so the
+		// number of real items and the total item count straddle every size in 65..4160), and with one
+		// null item first / in the middle / last
+		for arity := 260; arity <= 4160; arity *= 2 {
+			want := c13RenderStmt(lc.build(c13Plain(arity)))
+			for variant := 0; variant < 4; variant++ {
+				var items []jen.Code
+				for i := 0; i <= arity; i++ {
+					if variant == 0 || (variant == 1 && i == 0) || (variant == 2 && i == arity/2) || (variant == 3 && i == arity) {
+						items = append(items, c13Nulls[i%4].mk())
+					}
+					if i < arity {
+						items = append(items, c13Real(i))
+					}
+				}
+				got := c13RenderStmt(lc.build(items))
+				r.Eval(1)
+				d := fmt.Sprintf("%s with %d items and null items %s", lc, arity, []string{"at every slot", "first", "in the middle", "last"}[variant])
+				r.Distinct(d)
+				if got.Key() != want.Key() {
+					r.Violate(ev.Violation{Signature: "c13:large:" + lc.name, What: fmt.Sprintf("%s renders %q, without the null items %q", d, jh.Short(got.String(), 300), jh.Short(want.String(), 300)),
+						Case: ev.JSON(c13Case{Kind: "large", Construct: ci, Arity: arity, Desc: d})})
+				}
+			}
+		}
 		for wi := range c13Wraps {
 			for _, nullFirst := range []bool{true, false} {
-				r.Eval(1)
-				d := fmt.Sprintf("%s(x0, %s, x1) with a placeholder that is null first=%v", lc, c13Wraps[wi].name, nullFirst)
-				r.Distinct(d)
-				if msg := jh.Catch(func() (string, error) { return c13Rerender(lc, wi, nullFirst), nil }); msg.String() != "" {
-					r.Violate(ev.Violation{Signature: "c13:rerender:" + c13Wraps[wi].name, What: d + ": " + msg.String(),
-						Case: ev.JSON(c13Case{Kind: "rerender", Construct: ci, Wrap: wi, Pos: map[bool]int{true: 1, false: 0}[nullFirst], Desc: d}), Detail: msg.String()})
+				for phKind := 0; phKind < 2; phKind++ {
+					r.Eval(1)
+					d := fmt.Sprintf("%s(x0, %s, x1) with a placeholder (%s) that is null first=%v", lc, c13Wraps[wi].name, []string{"Null()", "&Statement{}"}[phKind], nullFirst)
+					r.Distinct(d)
+					if msg := jh.Catch(func() (string, error) { return c13Rerender(lc, wi, nullFirst, phKind), nil }); msg.String() != "" {
+						r.Violate(ev.Violation{Signature: "c13:rerender:" + c13Wraps[wi].name, What: d + ": " + msg.String(),
+							Case: ev.JSON(c13Case{Kind: "rerender", Construct: ci, Wrap: wi, Pos: map[bool]int{true: 1, false: 0}[nullFirst] + 2*phKind, Desc: d}), Detail: msg.String()})
+					}
 				}
 			}
 		}
@@ -519,7 +551,7 @@ func replayC13(raw json.RawMessage) (bool, string) {
 	case "empty":
 		msg = c13Empty(lc, c.Arity, c.Pos)
 	case "rerender":
-		msg = jh.Catch(func() (string, error) { return c13Rerender(lc, c.Wrap, c.Pos == 1), nil }).String()
+		msg = jh.Catch(func() (string, error) { return c13Rerender(lc, c.Wrap, c.Pos&1 == 1, c.Pos>>1), nil }).String()
 	case "shared":
 		msg = jh.Catch(func() (string, error) { return c13Shared(lc, c13Constructs[c.Second], c.Pos), nil }).String()
 	}
